@@ -156,7 +156,66 @@ def check_init(W, means, variances, random_state=None):
     return 1, viols
 
 
-CHECKS = {F_POP: check_population, F_INIT: check_init}
+def _law_viols(lg, W, means, variances, do, what, rtol):
+    st, dist = C.call(lg.sample, population=True, do_interventions=do)
+    if st == "exc":
+        return C.unexpected_exception(dist, "LGANM.sample(population=True) " + what)
+    em, ec = exact_law(np.asarray(W).tolist(), np.asarray(means).tolist(), np.asarray(variances).tolist(), do, None, None)
+    m, cv = np.asarray(dist.mean), np.asarray(dist.covariance)
+    p = len(W)
+    sm = max([Fraction(1)] + [abs(x) for x in em])
+    sc = max([Fraction(1)] + [abs(x) for row in ec for x in row])
+    bad = [j for j in range(p) if abs(Fraction(float(m[j])) - em[j]) > Fraction(rtol) * sm]
+    badc = [(j, k) for j in range(p) for k in range(p) if abs(Fraction(float(cv[j, k])) - ec[j][k]) > Fraction(rtol) * sc]
+    if bad or badc:
+        j = bad[0] if bad else badc[0]
+        return [("population law differs from the exact solution after earlier calls on other / near-identical models (call history)",
+                 "%s: entry %s library %s exact %s" % (what, j, float(m[j]) if bad else float(cv[j]), float(em[j]) if bad else float(ec[j[0]][j[1]])))]
+    return []
+
+
+def check_history(kind, seed=0):
+    """several models in one process: (near) a model whose weights differ from the previous one only beyond the 8th digit;
+    (large) 40-variable sparse models, observational call first, then a do-intervention on an inner variable with parents, then a
+    second large model that agrees with the first on its corner blocks.  Every answer is compared with the exact rational law."""
+    rng = random.Random("c01h-%s-%d" % (kind, seed))
+    viols, calls = [], 0
+    if kind == "near":
+        for eps in (5e-9, 2.0 ** -30, 1e-10):
+            base = rng.choice((0.5, -1.25, 2.0))
+            for k, w in enumerate((base, base + eps, base, base + 2 * eps)):
+                W = np.array([[0, w, 0.5], [0, 0, w], [0, 0, 0]])
+                means, variances = np.array([1e3, -2.0, 0.5]), np.array([1.0, 0.5, 2.0])
+                lg = S.LGANM(W, means, variances)
+                for do in (None, {1: (0.25, 2.0)}):
+                    viols += _law_viols(lg, W, means, variances, do, "near-identical model %d (eps %g) do=%s" % (k, eps, do), 1e-13)
+                    calls += 1
+                if viols:
+                    return calls, viols[:1]
+        return calls, viols
+    p = 40
+    models = []
+    W = np.zeros((p, p))
+    for j in range(1, p):
+        W[j - 1, j] = rng.choice((0.5, -1.0, 1.5))
+        if j >= 5 and rng.random() < 0.5:
+            W[j - 4, j] = rng.choice((0.25, -0.5))
+    means = np.array([rng.choice((0.0, 1.0, -2.0)) for _ in range(p)])
+    variances = np.array([rng.choice((0.5, 1.0, 2.0)) for _ in range(p)])
+    W2 = W.copy()
+    W2[10:30, 10:30] *= -2.0          # same corner blocks, other interior
+    for (Wm, name) in ((W, "first 40-variable model"), (W2, "second 40-variable model (same corner blocks)")):
+        lg = S.LGANM(Wm, means, variances)
+        for do in (None, {20: (1.5, 0.25)}, {10: 3.0, 33: (0.0, 1.0)}, None):
+            viols += _law_viols(lg, Wm, means, variances, do, "%s do=%s" % (name, do), 1e-9)
+            calls += 1
+            if viols:
+                return calls, viols[:1]
+    return calls, viols
+
+
+F_HIST = F_POP + "#history"
+CHECKS = {F_POP: check_population, F_INIT: check_init, F_HIST: check_history}
 
 # ----------------------------------------------------------------------------
 # domain
@@ -285,6 +344,11 @@ def run(tier, seed):
         itasks += [(4, i, i + 1, seed) for i in idxs]
     C.run_pool(init_worker, itasks, t2)
     tally.merge(t2.export())
+    t3 = C.Tally(HARNESS, CHECKS)
+    for kind in ("near", "large"):
+        t3.check(F_HIST, kind=kind, seed=seed)
+        t3.mark(("history", kind))
+    tally.merge(t3.export())
     rule = ("population law: every DAG pattern on p<=%d nodes x 4 typings (float / integer-typed W, means, variances; signed weights from %s or %s, "
             "zero-sum columns included) x %s of {none, do, noise, shift, do+noise, do+shift, noise+shift, all three} to the nodes, parameters tuples %s or "
             "scalars %s, empty kinds passed as {} or None: mean and covariance of sample(population=True) vs exact Fraction forward substitution "
@@ -292,7 +356,7 @@ def run(tier, seed):
             "attributes byte-identical afterwards, dtypes kept, arguments unchanged. constructor: every 0/1 matrix with diagonal on p<=3%s x "
             "{0/1, signed float, antisymmetric +-1 (cancelling 2-cycles)} as array and nested list: ValueError iff the oracle finds a cycle; "
             "wrong-length means/variances => ValueError; (lo,hi) ranges: shape (p,), inside the range, not all equal when lo<hi and p>=2. "
-            "non-trivial = (p, DAG, typing, assignment) / distinct constructor matrix"
+            "call histories: 3-node models whose weights differ only beyond the 8th digit (5e-9, 2^-30, 1e-10) queried in turn (tolerance 1e-13 x scale), and two 40-variable sparse models sharing their corner blocks, observational then do on inner variables. non-trivial = (p, DAG, typing, assignment) / distinct constructor matrix"
             % (4 if thorough else 3, list(FW), list(IW),
                "every assignment (p<=3), 600 sampled per DAG and typing (p=4)" if thorough else "every assignment (p<=3)",
                list(TUPLES), list(SCALARS), " and 3000 sampled p=4" if thorough else ""))
